@@ -8,7 +8,7 @@ git apply "$P" || { echo "patch does not apply"; exit 2; }
 trap 'git -C /repo checkout -- .' EXIT
 for id in "$@"; do
   s=$(date +%s)
-  out=$(cd /verif && ./check $id $TIER 2>/dev/null | grep -v "^KNOWN-FINDING" | grep -E "^(VIOLATION|OK|INCONCLUSIVE|  reason)" | head -3)
+  out=$(cd /verif && VERIF_OUT=/tmp/tryseed ./check $id $TIER 2>/dev/null | grep -v "^KNOWN-FINDING" | grep -E "^(VIOLATION|OK|INCONCLUSIVE|  reason)" | head -3)
   rc=$?
   e=$(date +%s)
   echo "[$id $((e-s))s] $(echo "$out" | tr '\n' ' ' | cut -c1-600)"
